@@ -1,6 +1,6 @@
 INIT MCInit
 NEXT MCNext
-CONSTANT Shapes = {1, 2, 3, 4, 5, 6, 7, 8, 9, 10, 11, 12, 13, 14, 15, 16, 17, 18}
+CONSTANT Shapes = {1, 2, 3, 4, 5, 6, 7, 8, 9, 10, 11, 12, 13, 14, 15, 16, 17, 18, 19, 20, 21, 22, 23, 24, 25, 26, 27, 28, 29, 30}
 CONSTANT MaxEntries = 2
 CONSTANT Wide = {5, 7, 12, 15}
 CONSTANT MaxLL = 3
